@@ -117,7 +117,7 @@ class C12(Check):
     ASSUMPTIONS = ['crash aftermaths are a deliberate superset of what journaling file systems leave behind (any prefix, zero tail, zero holes, old image, empty)',
                    'a hit is recognised at the FS seam: a lifetime that never tried to open the cache path for writing used the file',
                    'callable-valued options are outside the cache key by design and are not generated; deleting an imported file is not generated',
-                   'in-process lifetimes share the interpreter: volatile lark state is reset between them (load_grammar._get_parser cache)']
+                   'in-process lifetimes share the interpreter; in the histories that ask for it (4 %) every module-level container and function attribute of the lark package is put back to its import-time content between lifetimes (separate processes), the other histories are same-process histories']
 
     def setup(self, tier):
         self.lark = core.import_lark()
@@ -126,6 +126,7 @@ class C12(Check):
         self.valid = {}
         self.reset_volatile = False
         self.real_version = self.lark.__version__
+        self.volatile = self._scan_volatile()
 
     # ------------------------------------------------------------------ plan generation
     def _gen_content_fault(self, rng):
@@ -213,18 +214,50 @@ class C12(Check):
         if isinstance(LL.sys, F._SysShim):
             LL.sys.version_info = tuple(env.py) + tuple(sys.version_info[2:]) if env.py else sys.version_info
 
+    def _scan_volatile(self):
+        """every module-level mutable container and every function attribute dict of the lark package, with its content at import
+        time: the volatile state of a process as far as it can be seen from outside.  Found generically (not by a list of names), so a
+        change that adds a process-wide cache is covered too."""
+        import types
+        out = []
+        seen = set()
+        for name, mod in list(sys.modules.items()):
+            if not (name == 'lark' or name.startswith('lark.')) or mod is None:
+                continue
+            for k, v in list(vars(mod).items()):
+                if k.startswith('__') or id(v) in seen:
+                    continue
+                if isinstance(v, (dict, list, set)) and getattr(v, '__module__', None) is None:
+                    seen.add(id(v))
+                    out.append((name + '.' + k, v, v.copy()))
+                elif isinstance(v, types.FunctionType) and v.__module__ == name:
+                    seen.add(id(v.__dict__))
+                    out.append((name + '.' + k + '.__dict__', v.__dict__, dict(v.__dict__)))
+                elif isinstance(v, type) and v.__module__ == name:
+                    for ck, cv in list(vars(v).items()):          # class-level mutable defaults (e.g. LarkOptions._defaults)
+                        if isinstance(cv, (dict, list, set)) and id(cv) not in seen and not ck.startswith('__'):
+                            seen.add(id(cv))
+                            out.append(('%s.%s.%s' % (name, k, ck), cv, cv.copy()))
+        return out
+
     def _reset_volatile(self, force=False):
-        """only durable state survives a process: reset lark's process-wide caches.  Rebuilding the grammar-of-grammars parser
-        costs ~0.2 s, so it is done for the histories whose plan asks for it (a swarm knob), not for every lifetime."""
+        """only durable state survives a process: every module-level container of lark goes back to its import-time content.
+        Rebuilding the grammar-of-grammars parser costs ~0.2 s, so this is done for the histories whose plan asks for it (a swarm
+        knob: those histories are sequences of separate processes, the others are same-process histories), not for every lifetime."""
         if not (force or self.reset_volatile):
             return
-        import lark.load_grammar as LG
-        gp = getattr(LG, '_get_parser', None)
-        if gp is not None and hasattr(gp, 'cache'):
-            try:
-                del gp.cache
-            except AttributeError:
-                pass
+        for name, obj, orig in self.volatile:
+            if isinstance(obj, dict):
+                if obj != orig:
+                    obj.clear()
+                    obj.update(orig)
+            elif isinstance(obj, list):
+                if obj != orig:
+                    obj[:] = orig
+            elif isinstance(obj, set):
+                if obj != orig:
+                    obj.clear()
+                    obj.update(orig)
 
     def _kwargs(self, keyname):
         k = POOL[keyname]
